@@ -532,8 +532,13 @@ func (r *PipelineRunner) startJobsOnWaitList(pipeline string) {
 		}
 
 		waitList = waitList[1:]
+		// Write back the wait list before starting the job and read it again afterwards: startJob itself
+		// processes the wait list if the job cannot be started, so a local copy would be stale
+		r.waitListByPipeline[pipeline] = waitList
 
 		r.startJob(queuedJob)
+
+		waitList = r.waitListByPipeline[pipeline]
 
 		log.
 			WithField("component", "runner").
